@@ -6,6 +6,8 @@ import FxVerif.Proofs.C04Ibc
 import FxVerif.Proofs.C04Back
 import FxVerif.Proofs.C04Handler
 import FxVerif.Gen.C04
+import FxVerif.Model.C04Tok
+import FxVerif.Proofs.C04Hop
 /-!
 # C04 — bridge solvency: holdings + in-flight = initial + deposits − executed withdrawals; operations move only what
 they say; holdings stay withdrawable
@@ -1129,5 +1131,238 @@ example :
     (match refundFlow cfgW 0 ⟨1, 1, 1, [(1, 10)], false⟩, opFlow cfgW (init ledgerW) (.bcin 0 1 [(1, 5)]) with
      | .ok a, .ok b => decide (a.length = 7 ∧ a.getLast? = some (.mint (.erc 1) E (U 1) 10) ∧ b.length = 7)
      | _, _ => false) = true := by decide
+
+section Tok
+open FxVerif.Model.C04Tok
+
+/-! ### round 5: tokens of externally-owned pairs are reached only through wrappers that check the token's answer -/
+
+/-- both regenerated accept conditions were fully translated, and every function that moves a token of an externally-owned
+pair calls the token only through `ERC20Transfer` / `TransferFrom` -/
+theorem token_sites_use_checked_wrappers :
+    FxVerif.Gen.C04Tok.keeperTransfer_translated = true ∧ FxVerif.Gen.C04Tok.callTransferFrom_translated = true ∧
+    sitesChecked FxVerif.Gen.C04Tok.tokenSites = true ∧
+    FxVerif.Gen.C04Tok.tokenSites.map (·.1) = ["ConvertERC20NativeToken", "ConvertCoinNativeERC20", "handlerERC20Token"] := by
+  decide
+
+/-- ACCEPTED ⇒ MOVED, every signalling style (revert / false / nothing on failure, true / nothing on success), every
+asset, parties, amount and ledger: when `Keeper.ERC20Transfer` (regenerated accept condition) takes a transfer as done, the
+token has moved exactly as the ledger primitive says -/
+theorem keeper_transfer_accepted_moved (st : Style) (a : Asset) (s d : Addr) (n : Nat) (L L' : Ledger)
+    (h : wrappedTransfer FxVerif.Gen.C04Tok.keeperTransfer_accepts st a s d n L = .ok L') :
+    applyPrim (.send a s d n) L = .ok L' := by
+  unfold wrappedTransfer at h
+  cases hp : applyPrim (.send a s d n) L with
+  | ok L1 =>
+    rw [hp] at h; simp only at h
+    split at h
+    · exact h
+    · cases h
+  | error e =>
+    rw [hp] at h; simp only at h
+    obtain ⟨o, f⟩ := st
+    cases f <;> simp [Accepts.on, failSignal, FxVerif.Gen.C04Tok.keeperTransfer_accepts] at h
+
+/-- the same for the precompile's in-EVM wrapper `ERC20Call.TransferFrom` -/
+theorem precompile_transferFrom_accepted_moved (st : Style) (a : Asset) (s d : Addr) (n : Nat) (L L' : Ledger)
+    (h : wrappedTransfer FxVerif.Gen.C04Tok.callTransferFrom_accepts st a s d n L = .ok L') :
+    applyPrim (.send a s d n) L = .ok L' := by
+  unfold wrappedTransfer at h
+  cases hp : applyPrim (.send a s d n) L with
+  | ok L1 =>
+    rw [hp] at h; simp only at h
+    split at h
+    · exact h
+    · cases h
+  | error e =>
+    rw [hp] at h; simp only at h
+    obtain ⟨o, f⟩ := st
+    cases f <;> simp [Accepts.on, failSignal, FxVerif.Gen.C04Tok.callTransferFrom_accepts] at h
+
+/-- for a token that answers `true` on success — whatever its way of signalling failure — the wrapped transfer IS the
+ledger primitive: same result, same error, every input -/
+theorem keeper_transfer_is_send (st : Style) (hok : st.ok = .retTrue) (a : Asset) (s d : Addr) (n : Nat) (L : Ledger) :
+    wrappedTransfer FxVerif.Gen.C04Tok.keeperTransfer_accepts st a s d n L = applyPrim (.send a s d n) L ∧
+    wrappedTransfer FxVerif.Gen.C04Tok.callTransferFrom_accepts st a s d n L = applyPrim (.send a s d n) L := by
+  obtain ⟨o, f⟩ := st
+  cases hok
+  unfold wrappedTransfer
+  cases hp : applyPrim (.send a s d n) L with
+  | ok L1 => simp [Accepts.on, okSignal, FxVerif.Gen.C04Tok.keeperTransfer_accepts, FxVerif.Gen.C04Tok.callTransferFrom_accepts]
+  | error e =>
+    cases f <;> simp [Accepts.on, failSignal, FxVerif.Gen.C04Tok.keeperTransfer_accepts, FxVerif.Gen.C04Tok.callTransferFrom_accepts]
+
+/-- … hence every flow of the model, run with the ERC-20 sends of ANY set of groups going through either wrapper, is the
+flow the ledger model runs: all flows (induction over the primitive list), all ledgers, all three failure styles -/
+theorem styled_flows_are_flows (st : Style) (hok : st.ok = .retTrue) (ext : Nat → Bool) (fl : List Prim) (L : Ledger) :
+    runFlowStyled FxVerif.Gen.C04Tok.keeperTransfer_accepts st ext fl L = runFlow fl L ∧
+    runFlowStyled FxVerif.Gen.C04Tok.callTransferFrom_accepts st ext fl L = runFlow fl L := by
+  have hp : ∀ (p : Prim) (L : Ledger),
+      applyPrimStyled FxVerif.Gen.C04Tok.keeperTransfer_accepts st ext p L = applyPrim p L ∧
+      applyPrimStyled FxVerif.Gen.C04Tok.callTransferFrom_accepts st ext p L = applyPrim p L := by
+    intro p L
+    cases p with
+    | send a s d n =>
+      cases a with
+      | erc g =>
+        simp only [applyPrimStyled]
+        cases ext g
+        · simp
+        · simp only [if_true]; exact keeper_transfer_is_send st hok _ _ _ _ _
+      | base g => exact ⟨rfl, rfl⟩
+      | bridge g c => exact ⟨rfl, rfl⟩
+    | mint a b d n => exact ⟨rfl, rfl⟩
+    | burn a b d n => exact ⟨rfl, rfl⟩
+  induction fl generalizing L with
+  | nil => exact ⟨rfl, rfl⟩
+  | cons p ps ih =>
+    simp only [runFlowStyled, runFlow, (hp p L).1, (hp p L).2]
+    cases applyPrim p L with
+    | ok L1 => exact ih L1
+    | error e => exact ⟨rfl, rfl⟩
+
+/-- a token that answers NOTHING on success is refused by both wrappers on every transfer: such a pair never holds value
+on fxcore (a compatibility limit, not a solvency risk) -/
+theorem silent_success_token_is_unusable (st : Style) (hok : st.ok = .retNothing) (a : Asset) (s d : Addr) (n : Nat) (L : Ledger) :
+    (∀ L', wrappedTransfer FxVerif.Gen.C04Tok.keeperTransfer_accepts st a s d n L ≠ .ok L') ∧
+    (∀ L', wrappedTransfer FxVerif.Gen.C04Tok.callTransferFrom_accepts st a s d n L ≠ .ok L') := by
+  obtain ⟨o, f⟩ := st
+  cases hok
+  unfold wrappedTransfer
+  cases hp : applyPrim (.send a s d n) L with
+  | ok L1 => simp [Accepts.on, okSignal, FxVerif.Gen.C04Tok.keeperTransfer_accepts, FxVerif.Gen.C04Tok.callTransferFrom_accepts]
+  | error e =>
+    cases f <;> simp [Accepts.on, failSignal, FxVerif.Gen.C04Tok.keeperTransfer_accepts, FxVerif.Gen.C04Tok.callTransferFrom_accepts]
+
+/-- ledger of the witness: one externally-owned group 6; user 2 holds nothing of it -/
+def tokL : Ledger := { bal := fun _ _ => 0, supply := fun _ => 0, owner := fun _ => none }
+
+/-- the check matters: with a wrapper that only looks at the EVM error (the shape of `ERC20Mint` / `ERC20Burn`), a token
+that returns `false` lets a holder of NOTHING run `ConvertERC20` to the end: 5 base coins exist, no token is escrowed —
+while the checked wrapper (and the flow of the ledger model) refuses -/
+theorem unchecked_wrapper_creates_value :
+    let st : Style := ⟨.retTrue, .retFalse⟩
+    let fl := convertERC20 .externalOwned 6 (.user 2) (.user 2) 5
+    (∃ L', runFlowStyled uncheckedAccepts st (fun _ => true) fl tokL = .ok L' ∧
+       L'.bal (.base 6) (.user 2) = 5 ∧ L'.supply (.base 6) = 5 ∧ L'.bal (.erc 6) E = 0) ∧
+    runFlowStyled FxVerif.Gen.C04Tok.keeperTransfer_accepts st (fun _ => true) fl tokL = .error .insufficient ∧
+    runFlow fl tokL = .error .insufficient := by
+  exact ⟨⟨_, rfl, rfl, rfl, rfl⟩, rfl, rfl⟩
+
+/-- non-vacuity: a successful and a refused wrapped transfer of each failure style -/
+example : (wrappedTransfer FxVerif.Gen.C04Tok.keeperTransfer_accepts ⟨.retTrue, .retFalse⟩ (.erc 6) (.user 0) E 3
+    { tokL with bal := fun a x => if a = .erc 6 ∧ x = .user 0 then 4 else 0 }).toOption.map (fun L => (L.bal (.erc 6) (.user 0), L.bal (.erc 6) E)) = some (1, 3) := by decide
+example : wrappedTransfer FxVerif.Gen.C04Tok.callTransferFrom_accepts ⟨.retTrue, .retNothing⟩ (.erc 6) (.user 2) E 3 tokL = .error .insufficient := rfl
+example : ∃ L', wrappedTransfer uncheckedAccepts ⟨.retTrue, .retFalse⟩ (.erc 6) (.user 2) E 3 tokL = .ok L' := ⟨_, rfl⟩
+
+end Tok
+
+/-! ### round 5: the IBC alias chosen for an IBC target is the one whose last hop is the target (fix 94a3933) -/
+section Hop
+open FxVerif.Model.C04Hop FxVerif.Proofs.C04Hop
+
+/-- NOT SKIPPED ⇔ SAME LAST HOP, for both regenerated conditions: a voucher whose denom trace ends in `port/chan`
+(with or without earlier hops) is taken for the target `port'/chan'` iff port and channel are EQUAL — all identifiers
+(separator-free), all earlier paths.  In particular `channel-1` never takes the voucher of `channel-11`. -/
+theorem hop_match_iff_last_hop (port chan port' chan' : List Char) (earlier : Option (List Char))
+    (hp : sepFree port) (hc : sepFree chan) (hp' : sepFree port') (hc' : sepFree chan') :
+    (FxVerif.Gen.C04Hop.crosschain_skips (pathOf port chan earlier) (hopOf port' chan') = false ↔ port = port' ∧ chan = chan') ∧
+    (FxVerif.Gen.C04Hop.erc20_skips (pathOf port chan earlier) (hopOf port' chan') = false ↔ port = port' ∧ chan = chan') := by
+  have key : ((pathOf port chan earlier = hopOf port' chan') ∨ (hopOf port' chan' ++ [sep] <+: pathOf port chan earlier)) ↔
+      port = port' ∧ chan = chan' := by
+    constructor
+    · rintro (h | h)
+      · have h1 : port ++ sep :: (chan ++ tailOf earlier) <+: port' ++ sep :: chan' := by
+          unfold pathOf hopOf at h; rw [h]; exact List.prefix_refl _
+        have h2 : port' ++ sep :: chan' <+: port ++ sep :: (chan ++ tailOf earlier) := by
+          unfold pathOf hopOf at h; rw [h]; exact List.prefix_refl _
+        obtain ⟨e1, r1⟩ := sep_split_prefix _ _ _ _ hp hp' h1
+        obtain ⟨_, r2⟩ := sep_split_prefix _ _ _ _ hp' hp h2
+        refine ⟨e1, ?_⟩
+        cases earlier with
+        | none =>
+          simp only [tailOf, List.append_nil] at r1 r2
+          exact List.IsPrefix.eq_of_length_le r1 (List.IsPrefix.length_le r2)
+        | some r =>
+          simp only [tailOf] at r1
+          have : sep ∈ chan' := List.IsPrefix.subset r1 (by simp)
+          exact absurd this hc'
+      · have h1 : port' ++ sep :: (chan' ++ [sep]) <+: port ++ sep :: (chan ++ tailOf earlier) := by
+          unfold pathOf hopOf at h; simpa [List.append_assoc] using h
+        obtain ⟨e1, r1⟩ := sep_split_prefix _ _ _ _ hp' hp h1
+        refine ⟨e1.symm, ?_⟩
+        cases earlier with
+        | none =>
+          simp only [tailOf, List.append_nil] at r1
+          have : sep ∈ chan := List.IsPrefix.subset r1 (by simp)
+          exact absurd this hc
+        | some r =>
+          simp only [tailOf] at r1
+          exact ((sep_split_prefix _ _ _ _ hc' hc r1).1).symm
+    · rintro ⟨rfl, rfl⟩
+      cases earlier with
+      | none => left; simp [pathOf, hopOf, tailOf]
+      | some r =>
+        right
+        refine ⟨r, ?_⟩
+        simp [pathOf, hopOf, tailOf, List.append_assoc]
+  have tr : ∀ (path hop : List Char), ((path != hop) && (!(List.isPrefixOf (hop ++ ("/").toList) path))) = false ↔
+      (path = hop ∨ hop ++ [sep] <+: path) := by
+    intro path hop
+    have : ("/").toList = [sep] := rfl
+    rw [this]
+    simp only [Bool.and_eq_false_iff, bne_eq_false_iff_eq, Bool.not_eq_false', List.isPrefixOf_iff_prefix]
+  exact ⟨(tr _ _).trans key, (tr _ _).trans key⟩
+
+/-- ROUTE CHOSEN = THE ALIAS WHOSE LAST HOP IS THE TARGET: over any list of well-formed aliases the look-up returns the
+FIRST alias with exactly the target's port and channel, and nothing if there is none -/
+theorem route_chosen_is_last_hop_alias (as : List Alias) (hwf : ∀ a ∈ as, a.wf) (port chan : List Char)
+    (hp : sepFree port) (hc : sepFree chan) :
+    chooseAlias FxVerif.Gen.C04Hop.crosschain_skips as port chan = as.find? (fun a => a.port = port ∧ a.chan = chan) ∧
+    chooseAlias FxVerif.Gen.C04Hop.erc20_skips as port chan = as.find? (fun a => a.port = port ∧ a.chan = chan) := by
+  induction as with
+  | nil => exact ⟨rfl, rfl⟩
+  | cons a t ih =>
+    have hw := hwf a List.mem_cons_self
+    obtain ⟨i1, i2⟩ := ih (fun b hb => hwf b (List.mem_cons_of_mem _ hb))
+    have h := hop_match_iff_last_hop a.port a.chan port chan a.earlier hw.1 hw.2 hp hc
+    unfold chooseAlias at *
+    simp only [List.find?_cons]
+    by_cases e : a.port = port ∧ a.chan = chan
+    · have c1 := h.1.mpr e
+      have c2 := h.2.mpr e
+      simp [Alias.path, c1, c2, decide_eq_true e]
+    · have c1 : FxVerif.Gen.C04Hop.crosschain_skips (pathOf a.port a.chan a.earlier) (hopOf port chan) = true := by
+        cases hh : FxVerif.Gen.C04Hop.crosschain_skips (pathOf a.port a.chan a.earlier) (hopOf port chan) with
+        | true => rfl
+        | false => exact absurd (h.1.mp hh) e
+      have c2 : FxVerif.Gen.C04Hop.erc20_skips (pathOf a.port a.chan a.earlier) (hopOf port chan) = true := by
+        cases hh : FxVerif.Gen.C04Hop.erc20_skips (pathOf a.port a.chan a.earlier) (hopOf port chan) with
+        | true => rfl
+        | false => exact absurd (h.2.mp hh) e
+      simp only [Alias.path, c1, c2, Bool.not_true, decide_eq_false e]
+      exact ⟨i1, i2⟩
+
+/-- both conditions were fully translated and `hop` is built as `port/channel` -/
+theorem hop_condition_translated :
+    FxVerif.Gen.C04Hop.crosschain_translated = true ∧ FxVerif.Gen.C04Hop.erc20_translated = true ∧
+    FxVerif.Gen.C04Hop.crosschain_hop = ("%s/%s", ["fxTarget.SourcePort", "fxTarget.SourceChannel"]) ∧
+    FxVerif.Gen.C04Hop.erc20_hop = ("%s/%s", ["fxTarget.SourcePort", "fxTarget.SourceChannel"]) := by decide
+
+def ch1 : Alias := ⟨1, "transfer".toList, "channel-1".toList, some "atkg".toList⟩
+def ch11 : Alias := ⟨11, "transfer".toList, "channel-11".toList, some "atkg".toList⟩
+
+/-- the probe of round 4 as a theorem: with the plain string-prefix condition (before fix 94a3933) and the channel-11
+voucher listed first, a request for channel-1 is served by the channel-11 voucher; the regenerated condition picks
+channel-1 in either order -/
+theorem prefix_match_picks_wrong_channel :
+    (chooseAlias prefixSkips [ch11, ch1] "transfer".toList "channel-1".toList).map (·.id) = some 11 ∧
+    (chooseAlias FxVerif.Gen.C04Hop.crosschain_skips [ch11, ch1] "transfer".toList "channel-1".toList).map (·.id) = some 1 ∧
+    (chooseAlias FxVerif.Gen.C04Hop.erc20_skips [ch1, ch11] "transfer".toList "channel-11".toList).map (·.id) = some 11 := by
+  decide
+
+example : ch1.wf ∧ ch11.wf := by simp [Alias.wf, sepFree, ch1, ch11, sep]
+
+end Hop
 
 end FxVerif.Props.C04
